@@ -34,6 +34,7 @@ type FuncCtx struct {
 	loopFrames   map[*ssa.BasicBlock][]string
 	ghostVars    map[string]SV
 	callResults  map[string][]SV
+	freeSV       map[string]SV
 	depth        int
 	nRet         int
 }
@@ -91,7 +92,7 @@ func (v *Verifier) VerifyFunction(key string) {
 	}()
 	fc := &FuncCtx{v: v, fn: fn, spec: spec, key: key, short: shortFuncName(key), paramSV: map[string]SV{}, allocsByName: map[string][]*ssa.Alloc{},
 		cellClass: map[*ssa.Alloc]bool{}, safeCount: map[string]int{}, callCount: map[string]int{}, mutatedParam: map[string]bool{},
-		loopOrd: map[*ssa.BasicBlock]int{}, loopHeadSt: map[*ssa.BasicBlock]*State{}, ghostVars: map[string]SV{}, callResults: map[string][]SV{}, loopFrames: map[*ssa.BasicBlock][]string{}}
+		loopOrd: map[*ssa.BasicBlock]int{}, loopHeadSt: map[*ssa.BasicBlock]*State{}, ghostVars: map[string]SV{}, callResults: map[string][]SV{}, freeSV: map[string]SV{}, loopFrames: map[*ssa.BasicBlock][]string{}}
 	for _, g := range spec.Ghosts {
 		so, gt, err := v.resolveTypeOrSort(g.Type)
 		if err != nil {
@@ -114,6 +115,20 @@ func (v *Verifier) VerifyFunction(key string) {
 		fc.paramSV[name] = SV{T: t, GoT: p.Type()}
 		fc.paramOrder = append(fc.paramOrder, name)
 		v.assumeTyped(st, t, p.Type(), alloc0)
+	}
+	// a function literal verified on its own: captured variables are read-only unknowns of the enclosing function,
+	// addressable in the contract by their names
+	for _, fv := range fn.FreeVars {
+		el := pointee(fv.Type())
+		if el == nil {
+			unsupported("captured variable %s is not a variable reference", fv.Name())
+		}
+		so := v.tm.SortOf(el)
+		t := c.Const(fc.short+".free."+fv.Name(), so)
+		fr.free[fv] = Val{Loc: &Loc{Root: t, Sort: so, GoT: el}, GoT: fv.Type()}
+		fc.paramSV[fv.Name()] = SV{T: t, GoT: el}
+		fc.freeSV[fv.Name()] = SV{T: t, GoT: el}
+		v.assumeTyped(st, t, el, alloc0)
 	}
 	if spec != nil && len(spec.ParamNames) > 0 {
 		if len(spec.ParamNames) != len(fn.Params) {
@@ -264,6 +279,10 @@ func (fc *FuncCtx) env(st, old *State) *Env {
 		}
 		as := fc.allocsByName[base]
 		if len(as) == 0 {
+			// captured variable of a function literal verified on its own
+			if sv, ok := fc.freeSV[name]; ok {
+				return sv, true, nil
+			}
 			return SV{}, false, nil
 		}
 		var a *ssa.Alloc
@@ -330,6 +349,17 @@ func (v *Verifier) assumeTyped(st *State, t *Term, gt types.Type, alloc0 *Term) 
 	case *types.Slice:
 		if isSliceSort(t.Sort) {
 			st.assume(c, c.Cmp("<=", c.Int(0), c.FieldOf(t, 1)))
+		}
+	case *types.Struct:
+		// slice-typed fields of a struct value have non-negative length, integer fields are in range (one level)
+		stt := gt.Underlying().(*types.Struct)
+		if t.Sort.Kind == KData && len(t.Sort.Fields) == stt.NumFields() {
+			for i := 0; i < stt.NumFields(); i++ {
+				ft := stt.Field(i).Type()
+				if _, isSl := ft.Underlying().(*types.Slice); isSl && isSliceSort(t.Sort.Fields[i].Sort) {
+					st.assume(c, c.Cmp("<=", c.Int(0), c.FieldOf(c.FieldOf(t, i), 1)))
+				}
+			}
 		}
 	}
 }
@@ -754,6 +784,24 @@ func (fc *FuncCtx) execFunc(fr *Frame, st0 *State) []retInfo {
 				for _, r := range t.Results {
 					rs = append(rs, fc.valOf(fr, r))
 				}
+				if fn == fc.fn && !st.dead {
+					// every return statement must be reachable under the contract's assumptions (vacuity guard),
+					// unless the contract lists it as unreachable
+					fc.nRet++
+					name := fmt.Sprintf("%s#canary.return%d", fc.short, fc.nRet)
+					expectDead := false
+					for _, u := range fc.spec.Unreach {
+						if u == fmt.Sprintf("return%d", fc.nRet) {
+							expectDead = true
+						}
+					}
+					if expectDead {
+						v.addObligation(&Obligation{Name: name + ".unreachable", Kind: "post", Func: fc.key, Pos: v.fset.Position(t.Pos()).String(),
+							Assume: st.pc, Goal: v.c.Bool(false), Expect: "unsat", Src: "declared unreachable"})
+					} else {
+						v.addObligation(&Obligation{Name: name, Kind: "canary", Func: fc.key, Pos: v.fset.Position(t.Pos()).String(), Assume: st.pc, Expect: "sat"})
+					}
+				}
 				rets = append(rets, retInfo{st, rs})
 				terminated = true
 			case *ssa.Panic:
@@ -1147,7 +1195,7 @@ func (fc *FuncCtx) scanCall(ci ssa.CallInstruction, fr *Frame, ws *writeSet, dep
 				unsupported("modifies clause %s of %s not understood", m, key)
 			}
 		}
-		if spec.Fresh {
+		if spec.Fresh || ensuresMentionFresh(spec) {
 			ws.globals["$alloc"] = true
 		}
 		return
